@@ -42,11 +42,12 @@ type dkCase struct {
 	Strict    bool
 	Order     string // sorted (docker save) | shuffle | manifest-first
 	BigLayer  bool   // one layer of a few MiB of incompressible data (several upload chunks)
+	Damage    string // "" | gz-truncated | gz-bitflip: the gzip stream of one compressed layer of the picked image is damaged inside its (well-formed) tar member: the import has to refuse
 }
 
 func (c dkCase) key() string {
 	return fmt.Sprintf("docker|%s|img=%d|pick=%d|name=%t|l=%d|comp=%s|repeat=%t|symdup=%t|legacy=%t|notags=%t|empty=%t|ogz=%t|>%s|strict=%t|%s|big=%t",
-		c.Layout, c.Images, c.Pick, c.ByName, c.Layers, c.LayerComp, c.Repeat, c.SymDup, c.Legacy, c.NoTags, c.EmptyTar, c.OuterGzip, c.Tgt, c.Strict, c.Order, c.BigLayer)
+		c.Layout, c.Images, c.Pick, c.ByName, c.Layers, c.LayerComp, c.Repeat, c.SymDup, c.Legacy, c.NoTags, c.EmptyTar, c.OuterGzip, c.Tgt, c.Strict, c.Order, c.BigLayer) + map[bool]string{true: "|damage=" + c.Damage, false: ""}[c.Damage != ""]
 }
 
 func randomDK(rng *rand.Rand, i int) dkCase {
@@ -65,6 +66,9 @@ func randomDK(rng *rand.Rand, i int) dkCase {
 		c.Layers = 2 + rng.Intn(3)
 	case 4:
 		c.NoTags = true
+	}
+	if c.LayerComp == "gzip" && !c.Repeat && i%4 == 1 {
+		c.Damage = []string{"gz-truncated", "gz-bitflip"}[rng.Intn(2)]
 	}
 	return c
 }
@@ -143,6 +147,14 @@ func buildDocker(c dkCase) ([]entry, []dkImage) {
 			body := lt
 			if compressed {
 				body = gz(lt)
+				if c.Damage != "" && im == c.Pick && l == 0 && len(body) > 24 {
+					body = bytes.Clone(body)
+					if c.Damage == "gz-truncated" {
+						body = body[:len(body)-9] // the trailer and a little of the stream are gone
+					} else {
+						body[len(body)/2] ^= 0x55
+					}
+				}
 			}
 			meta := []entry{{Name: id + "/", Type: tar.TypeDir},
 				{Name: id + "/VERSION", Type: tar.TypeReg, Body: []byte("1.0")},
@@ -252,6 +264,15 @@ func dockerAttempt(run *runT, c dkCase) (members []entry, tgtName string, res ca
 	}
 	res = doImport(rc, tgtRef, raw, opts...)
 	closeRef(rc, tgtRef)
+	if c.Damage != "" && !res.Hung && res.Panic == "" {
+		// no image can be "the archive's layers once decompressed": anything but an error is wrong
+		run.Count("docker_imports_of_damaged_layers", 1)
+		if res.Err == nil {
+			return members, tgt.String(), res, "import-accepts-damaged-layer", []string{"ImageImport returned nil for a Docker-format archive in which the gzip stream of a layer is damaged (" + c.Damage + ")"}, len(want.Layers), true
+		}
+		run.Count("docker_imports_of_damaged_layers_refused", 1)
+		return members, tgt.String(), res, "", nil, 0, false
+	}
 	switch {
 	case res.Hung:
 		run.Inconclusive("docker: import did not return within the watchdog [" + c.key() + "]")
